@@ -338,4 +338,9 @@ def check(run, model, tier):
                  obligation=True)
         break
     timer_retest(run, g, t, posts)
+    # a source can only be cancelled while its record is in the (bounded) tracking deque: the admission limit must be the deque's own bound
+    from props.c31 import admission_capacity, same_capacity
+    ac_ = admission_capacity(model)
+    if ac_ is not None:
+        same_capacity(run, model, *ac_)
     run.assume('threading.Event.clear/is_set are atomic; the tracking deque is only used from the caller\'s and the object\'s threads')
